@@ -372,8 +372,17 @@ pub fn ty_strategy_ext(depth: u32, with_dedup: bool) -> BoxedStrategy<Ty> {
     let roots: Vec<BoxedStrategy<Ty>> = rooted_tys(depth).into_iter().map(|(_, s)| s).collect();
     let compiled: Vec<Ty> = crate::props::derived::batch().all().into_iter().filter(|d| crate::props::derived::compiled_ok(d)).map(Ty::Adt).collect();
     let adt = prop_oneof![3 => vmodel::declgen::adt_ty_strategy(with_dedup), 1 => proptest::sample::select(compiled)].boxed();
+    // sequences of the compiled declarations that have no size in memory (unit struct, empty struct, enum with one
+    // unit constructor): a count and that many non-empty encodings
+    let zst: Vec<Ty> = crate::props::derived::batch().specials.iter().filter(|d| vmodel::declgen::ZST_DECLS.contains(&d.name.as_str()) && crate::props::derived::compiled_ok(d)).cloned().map(Ty::Adt).collect();
+    let zst_seq = if zst.is_empty() {
+        adt.clone()
+    } else {
+        (proptest::sample::select(zst), proptest::sample::select(vec![usize::MAX, 0, 1, 2, 3, 16, 17])).prop_map(|(t, n)| if n == usize::MAX { Ty::Vec(Arc::new(t)) } else { Ty::Array(Arc::new(t), n) }).boxed()
+    };
     prop_oneof![
         6 => Union::new(roots),
+        1 => zst_seq,
         4 => adt.clone(),
         1 => adt.clone().prop_map(|t| Ty::Vec(Arc::new(t))),
         1 => adt.clone().prop_map(|t| Ty::Tuple(vec![Ty::U16, t, Ty::Str])),
